@@ -205,6 +205,26 @@ def subset_history(rng):
     return None, {'spec': str(spec), 'subsets': steps, 'equal_atoms': any(kinds.count(k) > 1 for k in ('exp', 'norm', 'abs', 'pos'))}
 
 
+def oracle_resolve(rng):
+    """re-solving: whatever options earlier solves of the same Problem were given, a later plain solve gives the value of a fresh copy"""
+    import sageopt.coniclifts as cl
+    make, spec = build_pool(rng, nmin=2, nmax=3)
+    with warnings.catch_warnings():
+        warnings.simplefilter('ignore')
+        x, cons, obj = make()
+        p1 = cl.Problem(cl.MIN, obj, cons)
+        first = p1.solve(verbose=False, max_iters=rng.choice([1, 2]))
+        again = p1.solve(verbose=False)
+        third = p1.solve(verbose=False, max_iters=150)
+        xf, cf, of = make()
+        fresh = cl.Problem(cl.MIN, of, cf).solve(verbose=False)
+    for label, got in (('a plain solve()', again), ('solve(max_iters=150)', third)):
+        if got[0] != fresh[0] or (np.isfinite(fresh[1]) and not abs(got[1] - fresh[1]) <= 1e-5 * (1 + abs(fresh[1]))):
+            return 'model spec %s: after solve(max_iters=1 or 2) returned %r, %s of the same Problem returns %r; a fresh copy solves to %r' % (
+                spec, first, label, got, fresh)
+    return None
+
+
 def oracle_settings(rng):
     """changing the global defaults after construction must not change what a constraint compiles to"""
     import sageopt.coniclifts as cl
@@ -350,7 +370,7 @@ def run(ctx):
             ctx.problem('oracle', 'property fails on the implementation: ' + why, inputs=meta, failing_input_found=True)
             break
     ctx.suites['subset_histories'] = {'cases': nsub}
-    for name, f in (('settings_snapshot', oracle_settings), ('generations', oracle_generations)):
+    for name, f in (('resolve', oracle_resolve), ('settings_snapshot', oracle_settings), ('generations', oracle_generations)):
         why = f(ctx.rng)
         ctx.suites[name] = {'cases': 1, 'failure': why}
         ctx.evaluations += 1
@@ -367,7 +387,7 @@ def search(ctx):
         why, meta = subset_history(ctx.rng)
         if why:
             return dict(meta, property_failure=why)
-    for name, f in (('settings_snapshot', oracle_settings), ('generations', oracle_generations)):
+    for name, f in (('resolve', oracle_resolve), ('settings_snapshot', oracle_settings), ('generations', oracle_generations)):
         why = f(ctx.rng)
         if why:
             return {'suite': name, 'property_failure': why}
